@@ -338,8 +338,12 @@ def x_connection_limits():
         raise ExtractError("%s: the production submit channel refers to a constant that is not defined there" % rel)
     if hook is None:
         hook = prod
-    rel_cc = "scylla/src/cluster/control_connection.rs"
-    ev = parse_int(one(rel_cc, r"mpsc::channel\(([0-9_]+)\)", "capacity of the event channel"), rel_cc)
+    # the event channel of the PRODUCTION control connection (`make_control_connection`; the `mpsc::channel(32)` of
+    # cluster/control_connection.rs sits in that file's `#[cfg(test)]` module and is not it)
+    rel_cc = "scylla/src/cluster/metadata/cc_establisher.rs"
+    ev = parse_int(one(rel_cc, r"async fn make_control_connection\b[^{]*\{\s*let \(sender, receiver\) = tokio::sync::mpsc::channel\(([0-9_]+)\);",
+                       "capacity of the control connection's event channel"), rel_cc)
+    one(rel_cc, r"config\.event_sender = Some\(\(sender,", "the sender of that channel becomes the connection's event sender")
     return ("bounded resources of a connection", [rel, rel_hook, rel_cc],
             [("submitChannelCapacity", "Nat", str(prod)), ("hookSubmitChannelCapacity", "Nat", str(hook)),
              ("oldOrphanCountThreshold", "Nat", str(count)), ("oldAgeOrphanThresholdMs", "Nat", str(secs * 1000)),
@@ -499,11 +503,27 @@ def x_murmur3():
              ("murmur_fmix_shifts", "List Nat", nl(shifts))])
 
 
+def x_frame_prealloc():
+    """C08: the bound on the up-front allocation of a response body (`read_response_frame`)."""
+    rel = "scylla-cql/src/frame/mod.rs"
+    src = strip_comments(read(rel))
+    fn = block_after(src, r"\bpub\s+async\s+fn\s+read_response_frame\b[^{]*\{", rel)
+    lit = one(rel, r"\bconst\s+MAX_BODY_PREALLOCATION\s*:\s*usize\s*=\s*([^;]+);", "MAX_BODY_PREALLOCATION", fn)
+    m = re.fullmatch(r"\s*([0-9_xXa-fA-F]+)\s*<<\s*([0-9_]+)\s*", lit)
+    value = (parse_int(m.group(1), rel) << parse_int(m.group(2), rel)) if m else parse_int(lit, rel)
+    # ... and it must be what caps the capacity request
+    one(rel, r"Vec::with_capacity\(\s*length\.min\(\s*MAX_BODY_PREALLOCATION\s*\)\s*\)\s*\.limit\(\s*length\s*\)",
+        "with_capacity(length.min(MAX_BODY_PREALLOCATION)).limit(length)", fn)
+    return ("up-front allocation bound of a response body (read_response_frame)", [rel],
+            [("maxBodyPreallocation", "Nat", "0x%X" % value)])
+
+
 EXTRACTORS_TABLES = [
     x_db_error_codes,
     x_column_type_ids,
     x_result_kinds,
     x_murmur3,
+    x_frame_prealloc,
 ]
 
 # ------------------------------------------------------------------------------------------------
